@@ -2,6 +2,8 @@
 # Copyright (c) 2022: Ludwig Schneider
 # See LICENSE for details
 
+import re
+
 from .atom import Atom
 from .bond import BondDescriptor
 from .core import _GLOBAL_RNG, BigSMILESbase, choose_compatible_weight
@@ -226,6 +228,10 @@ class SmilesToken(BigSMILESbase):
                 raise RuntimeError("expected as non-empty string")
 
             string += element_string
+        # Bond symbols written next to a bond descriptor describe the bond of the descriptor,
+        # they are not part of the fragment.
+        string = re.sub(r"[-=#:]+\.", ".", string)
+        string = re.sub(r"\.[-=#:]+", ".", string)
         # Remove empty branches
         string = string.replace("(.)", "")
         # Remove no-bond before branch end
